@@ -3,11 +3,13 @@ CHECK = {
                     "C01.Pool.c01_pick_pinned_witness", "C01.gen_loop", "C01.gen_fits", "C01.gen_unit", "C01.gen_limits",
                     "C01.gen_structure", "C01.gen_publish", "C02.c02_reassembly", "C02.c02_prefix_always", "C02.gen_structure",
                     "E2E.c01_end_to_end", "E2E.c01_end_to_end_prefix", "E2E.wire_sim", "E2E.isEnc_exists", "C04.c04_roundtrip",
-                    "E2E.c01_end_to_end_bytes", "E2E.c01_end_to_end_bytes_prefix", "E2E.conn_handed", "E2E.labelled", "C05.c05_roundtrip", "C05.gen_structure"],
-    "lean_module": "CloakModel.Props.E2EWire",
-    "scenarios": ["C01"],
-    "reset_ops": ["ss.new"],
-    "rule": "core rig: session pairs (4 methods, 1..8 connections, singleplex, 1..64 (..500 thorough) streams), writes of sizes {1,2,unit-1,unit,unit+1,2unit+3,random} "
+                    "E2E.c01_end_to_end_bytes", "E2E.c01_end_to_end_bytes_prefix", "E2E.conn_handed", "E2E.labelled", "C05.c05_roundtrip", "C05.gen_structure",
+                    "C01D.gen_deadline_sp", "C01D.gen_timed_out", "C01D.c01_deadline_prefix", "C01D.sp_no_deadline_is_plain", "C01D.sp_timeout_keeps", "C01D.sp_timeout_sound", "C01D.sp_timeout_complete", "C01D.c01_returns_by_deadline"],
+    "lean_module": "CloakModel.Props.C01All",
+    "scenarios": ["C01", "C01dl"],
+    "reset_ops": ["ss.new", "spl.new"],
+    "rule": "read deadlines (scenario C01dl): seeded scripts on the real streamBufferedPipe inside a synctest bubble (writes, reads that return / time out / park and are woken by a write, close, new deadline or the pipe's timer; deadlines set / moved / cleared / already expired; time passing across and exactly up to the deadline), every answer and the fill compared with Model/StreamPipeDeadline.lean; "
+            "core rig: session pairs (4 methods, 1..8 connections, singleplex, 1..64 (..500 thorough) streams), writes of sizes {1,2,unit-1,unit,unit+1,2unit+3,random} "
             "in both directions, every captured record delivered by the harness in a seeded cross-connection order with reads/accepts interleaved, every step "
             "compared with the Lean session+reorder model; TLS rig: common.TLSConn over a byte stream cut at arbitrary positions (1 byte, inside headers, "
             "coalesced records), monitors only; addConn-vs-send schedule via VerifPoint. all cases non-trivial; distinct by configuration tag",
